@@ -863,12 +863,16 @@ def stepIter (cx : Ctx) (w : World) (ws : List String) : Option StepOut :=
   let colsS (rs : List Elem) : List (List Nat) := cx.maskCols (rowsCols nl rs)
   let rowStr (cols : List (List Nat)) (p : Nat) : String := fmtNats (cols.map (fun l => l.getD p 0))
   match ws with
-  | ["iter", r, _src, steps] | ["itermut", r, _src, steps] =>
+  | ["iter", r, src, steps] | ["itermut", r, src, steps] =>
       match parseReg r with
       | none => some (badOp w)
       | some r =>
         let writes := ws.headD "" == "itermut"
         let (w', oI, oS, evI, evS, made) := iterDrive cx r writes steps.toList ⟨0, (getI r).firstLen⟩ ⟨0, (getS r).length⟩ 0 w [] [] {} {} []
+        -- `….reuse`: the view the iterator was obtained from (by reference) still covers all its elements afterwards
+        let reuse := src.endsWith ".reuse"
+        let oI := if reuse then oI ++ [s!"P{(getI r).firstLen}", s!"Q{(getI r).firstLen}"] else oI
+        let oS := if reuse then oS ++ [s!"P{(getS r).length}", s!"Q{(getS r).length}"] else oS
         some { w := w', i := { status := "ok", ret := ",".intercalate oI, ev := evI },
                s := { status := "ok", ret := ",".intercalate oS, ev := evS }, madeI := made }
   | "sort" :: r :: entry :: rest =>
